@@ -276,6 +276,50 @@ def concurrent_first_use(rec, rng, n):
                 if got != expected1:
                     rec.violation("C04/concurrent-first-use-builds-differently", f"thread {i}: first build{call!r} = {got!r}, alone it gives {expected1!r}", {"endpoint": call[0], "values": repr(call[1])}, monitor="schedule-stress")
                     break
+        # ---- phase 2b: steady state, threads building *different* values of one rule over and over (links to different pages rendered at
+        # the same time); every build gives the URL of its own values
+        for _ in range(max(2, n // 2)):
+            m = Map([Rule("/tag/<name>", endpoint="tag"), Rule("/item/<int:a>/<string:b>", endpoint="item")])
+            m.update()
+            ad = m.bind("h.com", "/app")
+            jobs = [("tag", {"name": "alpha"}), ("tag", {"name": "beta"}), ("item", {"a": 1, "b": "x"}), ("item", {"a": 2, "b": "y z"}), ("tag", {"name": "gamma", "extra": "q"}), ("tag", {"name": "alpha"})]
+            alone = [ad.build(ep, dict(v)) for ep, v in jobs]
+            wrong = []
+            NT = len(jobs)
+            barrier = threading.Barrier(NT)
+
+            def builder(i):
+                barrier.wait()
+                time.sleep(i * 0.0004)
+                for _k in range(12):
+                    try:
+                        got = ad.build(jobs[i][0], dict(jobs[i][1]))
+                    except Exception as e:  # noqa: BLE001
+                        got = f"{type(e).__name__}: {e}"
+                    if got != alone[i]:
+                        wrong.append((jobs[i], got, alone[i]))
+                        return
+
+            ts = [threading.Thread(target=builder, args=(i,)) for i in range(NT)]
+            for c_ in rcodes:
+                mon.set_local_events(TOOL, c_, mon.events.LINE)
+            armed[0] = True
+            try:
+                for t in ts:
+                    t.start()
+                for t in ts:
+                    t.join(120)
+            finally:
+                armed[0] = False
+                for c_ in rcodes:
+                    mon.set_local_events(TOOL, c_, 0)
+            rec.case()
+            rec.observe("concurrent_builds_of_different_values")
+            rec.nontrivial(("conc-different-values", _))
+            if wrong:
+                job, got, exp = wrong[0]
+                rec.violation("C04/concurrent-first-use-builds-differently", f"six threads building their own values again and again: build{job!r} = {got!r}, alone it gives {exp!r}", {"endpoint": job[0], "values": repr(job[1])}, monitor="schedule-stress")
+                break
         # ---- third phase: a map that is being extended by several threads at once (plug-ins registering their rules while the application starts).  Yields
         # inside Map.add and the matcher's add.  Once the threads are done, every rule that builds must match what it built, exactly as on a map filled by one thread.
         for c_ in codes:
